@@ -279,7 +279,7 @@ func execC03(c *Ctx) {
 	mon := &c03mon{victim: victim, bound: detectBound(p.Cfg, p.N), since: map[int]time.Duration{}, lastInc: map[int]uint32{}, removed: map[int]time.Duration{}}
 	hm := &healthMon{}
 	em := newEventMon()
-	cx := startClusterRun(c, mon, hm, em)
+	cx := startClusterRun(c, mon, hm, em, newSelfMon())
 	ps := &probeSched{c: c, cx: cx, hist: map[string][]string{}, epoch: map[string]string{}}
 	if p.Cfg.IndirectChecks == 0 {
 		cx.cl.net.tapFn = ps.onTap
